@@ -203,7 +203,7 @@ def gen(ctx):
                 continue
             out.append({"shared": bool(k % 2 == 1), "seed": int(rng.integers(1 << 30)), "nx": nx, "nt": int(rng.integers(6, 10)) if est != "linear" else 30, "s": float(rng.choice([2.0, 10.0, 40.0])),
                         "stretches": stretches, "noisy": int(rng.integers(len(stretches))), "estimator": est, "orders": orders,
-                        "scale": float(rng.choice([0.01, 7.0, 300.0])) if est != "linear" else None})
+                        "scale": float([1e-4, 0.01, 7.0, 300.0][k % 4]) if est != "linear" else None})   # incl. intensities far below 1 (normalised data)
     return out
 
 
